@@ -274,6 +274,19 @@ func session(r *hx.Run, rng *gen.Rng, id string, sub uint32, disableMouse bool, 
 		}
 		r.Emit(fmt.Sprintf("suspend %d %d %d %d %d", bi(cnv), bi(clv), crow, ccol, cstyle), hx.Hex(string(fc.Take())))
 		cnv = false
+		if rng.Chance(1, 2) {
+			// Suspend while suspended: returns at once, writes nothing
+			if !within(1500*time.Millisecond, func() { vx.Suspend() }) {
+				r.Emit(fmt.Sprintf("suspend %d %d %d %d %d", bi(cnv), bi(clv), crow, ccol, cstyle), "hang")
+				return nil
+			}
+			if lastPanic != "" {
+				r.Emit(fmt.Sprintf("suspend %d %d %d %d %d", bi(cnv), bi(clv), crow, ccol, cstyle), "panic")
+				return nil
+			}
+			r.Emit(fmt.Sprintf("suspend %d %d %d %d %d", bi(cnv), bi(clv), crow, ccol, cstyle), hx.Hex(string(fc.Take())))
+			r.Count("suspend-while-suspended")
+		}
 		ok := within(1500*time.Millisecond, func() { vx.Close() })
 		if !ok {
 			r.Emit("closesuspended", "hang")
